@@ -1,6 +1,6 @@
 (* C44 -- lemmas about Model/C44.v *)
 From Coq Require Import ZArith List Bool Lia.
-From PV Require Import Bytes C44.
+From PV Require Import Bytes AuthShape C44_gen C44.
 Import ListNotations.
 Open Scope Z_scope.
 
@@ -121,4 +121,27 @@ Proof.
     injection Ex as -> ->. exact Hl.
   - exfalso. apply all_raise_app in Ha as [_ Ha]. unfold all_raise in Ha. cbn in Ha. discriminate.
   - destruct (split_unique _ _ _ _ _ _ E Hr Hr' eq_refl eq_refl) as (_ & Ex & _). discriminate.
+Qed.
+
+(* ---- the source has the shape the model assumes (Gen/C44_gen.v) ------------------------------ *)
+Lemma source_shape :
+  src_loop_shape = expected_loop_shape /\
+  src_source_facts = expected_source_facts /\
+  src_source_result_fields = expected_source_result_fields /\
+  src_auth_result_bases = expected_auth_result_bases /\ src_auth_result_keeps_strategy = true /\
+  src_auth_failure_bases = expected_auth_failure_bases /\ src_auth_failure_keeps_result = true /\
+  src_client_glue = expected_client_glue.
+Proof. repeat split; reflexivity. Qed.
+
+Lemma auth_loop_g_expected srcs : forall acc,
+  auth_loop_g expected_loop_shape srcs acc false = auth_loop srcs acc.
+Proof.
+  induction srcs as [|[s o] rest IH]; intros acc; [reflexivity|].
+  destruct o as [v|e|e]; cbn; [reflexivity | apply IH | reflexivity].
+Qed.
+
+(* so the model the theorems are about is the loop of the source as it is now *)
+Lemma authenticate_src_is_model srcs : authenticate_src srcs = authenticate srcs.
+Proof.
+  unfold authenticate_src, authenticate. destruct source_shape as [-> _]. apply auth_loop_g_expected.
 Qed.
